@@ -33,6 +33,15 @@ def _twin_cls(registered):
 TWIN_TI, TWIN_TS = typing.TypeVar('Twin', bound=int), typing.TypeVar('Twin', bound=str)
 TWIN_CA, TWIN_CI = _twin_cls(grammar.uc.UA), _twin_cls(int)
 TWIN_NI, TWIN_NS = typing.NewType('NTwin', int), typing.NewType('NTwin', str)
+# callables: the checker only ever tests callable(), so satisfaction of any Callable[...] hint is "is callable";
+# unsound answers across kinds (Callable[...] <= int) and the laws of the relation are what is decided here
+import collections.abc as _cabc
+CALLABLES = [('CallableBare', typing.Callable), ('Callable[[int],str]', typing.Callable[[int], str]),
+             ('Callable[...,int]', typing.Callable[..., int]), ('Callable[[],None]', typing.Callable[[], None]),
+             ('Callable[[int,str],bool]', typing.Callable[[int, str], bool]), ('Callable[[object],str]', typing.Callable[[object], str]),
+             ('Callable[[bool],str]', typing.Callable[[bool], str]), ('Callable[[int],object]', typing.Callable[[int], object]),
+             ('abc.Callable[[int],str]', _cabc.Callable[[int], str]), ('Optional[Callable[[int],str]]', typing.Optional[typing.Callable[[int], str]]),
+             ('List[Callable[[int],str]]', typing.List[typing.Callable[[int], str]])]
 TWINS = [('TwinTI', TWIN_TI), ('TwinTS', TWIN_TS), ('List[TwinTS]', typing.List[TWIN_TS]), ('List[TwinTI]', typing.List[TWIN_TI]),
          ('Optional[TwinTI]', typing.Optional[TWIN_TI]), ('Optional[TwinTS]', typing.Optional[TWIN_TS]),
          ('TwinCA', TWIN_CA), ('TwinCI', TWIN_CI), ('List[TwinCI]', typing.List[TWIN_CI]), ('List[TwinCA]', typing.List[TWIN_CA]),
@@ -55,16 +64,17 @@ def hint_pool(tier, seed):
             if '[' not in name or any(name.endswith(f'[{l}]') for l in ('int', 'str', 'UA', 'Lit1', 'bool', 'object', 'TU', 'TB')) \
                     or (',' in name and i % 5 == 0):
                 keep.append((name, h))
-        out = keep[:230] + grammar.annotated_hints(1, limit=24)[:24] + [h for h in grammar.special_hints() if 'Any' not in h[0] and 'LiteralString' not in h[0] and 'Unpack' not in h[0] and '*tuple' not in h[0]][::4] + TWINS
+        out = keep[:230] + grammar.annotated_hints(1, limit=24)[:24] + [h for h in grammar.special_hints() if 'Any' not in h[0] and 'LiteralString' not in h[0] and 'Unpack' not in h[0] and '*tuple' not in h[0]][::4] + TWINS + CALLABLES
     else:
         quick = hint_pool('quick', seed)
-        out = quick + out[:700] + grammar.special_hints() + grammar.hints_depth2_curated()[::4] + [
+        out = quick + CALLABLES + out[:700] + grammar.special_hints() + grammar.hints_depth2_curated()[::4] + [
             ('Union[TB,str]', typing.Union[grammar.TB, str]), ('Union[TC,None]', typing.Optional[grammar.TC]),
             ('Optional[NTInt]', typing.Optional[grammar.NTInt]), ('Union[TL,int]', typing.Union[grammar.TL, int]),
             ('TBU', TBU), ('Optional[TBU]', typing.Optional[TBU]), ('List[Optional[TB]]', typing.List[typing.Optional[grammar.TB]])]
         # LiteralString and PEP 646 unpacked tuples are not among the hint kinds the property quantifies over (the door API wraps it as
         # a class hint with origin `object`, so everything is a subhint of it); left out, see DESIGN 8.3
-        out = [(n, h) for n, h in out if 'Any' not in n and 'object' != n and 'Callable' not in n and 'LiteralString' not in n
+        keep_callables = {n for n, _h in CALLABLES}
+        out = [(n, h) for n, h in out if 'Any' not in n and 'object' != n and ('Callable' not in n or n in keep_callables) and 'LiteralString' not in n
                and 'Unpack' not in n and '*tuple' not in n]
         seen, ded = set(), []
         for n, h in out:
